@@ -58,7 +58,7 @@ class C18(Prop):
     rule = ("history = sequence over {connect, successful operation, operation that raises (empty login reply), device drops the connection "
             "and the client keeps using it, disconnect, refused connect, async-with with normal body, async-with whose body raises}; all legal "
             "histories of length <= 4 for both API classes (exhaustive, both tiers) plus random legal histories of length 5..10; distinct = "
-            "(api type, history); non-trivial = histories containing a failure action (op_raise, drop, refused, ctx_exc) or a reconnect")
+            "(api type, history); a second, independent instance stays connected to another device throughout and must be unaffected; non-trivial = histories containing a failure action (op_raise, drop, refused, ctx_exc) or a reconnect")
     level_text = ("All legal action histories up to length 4 over an 8-letter alphabet are enumerated for both API classes on every run, longer "
                   "ones sampled; after each action the flag is compared with the model and after each disconnect the device must observe end-of-stream.")
     level_note = "connect while connected and operations while disconnected are outside the statement; whether disconnect() raises after a device-side drop is not judged, only the flag and the socket"
@@ -71,6 +71,8 @@ class C18(Prop):
     async def setup(self, ctx):
         self.rig = tcpwork.Rig(ctx["shard"])
         self.dev = await self.rig.device()
+        self.dev2 = await self.rig.device()   # serves the bystander instance; never stopped or scripted to fail
+        self.dev2.responder = td.auto_responder(family="shutter")
         import aioswitcher.api as api_mod
 
         self.api_mod = api_mod
@@ -117,6 +119,15 @@ class C18(Prop):
         dev.responder = responder
         cls = self.api_mod.SwitcherType1Api if t == 1 else self.api_mod.SwitcherType2Api
         api = cls(dev.ip, "a1b2c3", "18")
+        # a second, independent instance that stays connected to another device for the whole history
+        bystander = cls(self.dev2.ip, "d4e5f6", "27")
+        n2 = len(self.dev2.conns)
+        await bystander.connect()
+        for _ in range(300):
+            if len(self.dev2.conns) > n2:
+                break
+            await asyncio.sleep(0)
+        bconn = self.dev2.conns[-1] if len(self.dev2.conns) > n2 else None
         model = False
         cur = {"conn": None, "port": None, "dropped": False}
         trace = []
@@ -253,6 +264,25 @@ class C18(Prop):
                 await expect_eof(a)
                 cur["conn"] = None
             check_flag(a)
+            if bystander.connected is not True or (bconn is not None and bconn.eof_seen.is_set()):
+                acc.violation("other-instance-affected", f"type {t} history {history}: after {a!r} an independent, connected instance reports "
+                              f"connected={bystander.connected}, its device saw end-of-stream: {bconn.eof_seen.is_set() if bconn else '?'}",
+                              {"history": history, "after": a, "trace": trace})
+                break
+        # the bystander must still work, then goes away cleanly
+        try:
+            if t == 1:
+                await bystander.get_state()
+            else:
+                await bystander.get_shutter_state()
+            acc.count("bystander_operations_ok")
+        except Exception as exc:
+            acc.violation("other-instance-affected", f"type {t} history {history}: the independent instance can no longer talk to its device: "
+                          f"{type(exc).__name__}: {exc}", {"history": history, "trace": trace})
+        await bystander.disconnect()
+        if bconn is not None and not await td.wait_eof(bconn, 5.0):
+            acc.violation("socket-left-open", f"type {t}: the independent instance's disconnect did not reach its device", {"history": history})
+        self.dev2.conns.clear()
         # tidy up so the next case starts clean
         try:
             await api.disconnect()
